@@ -27,7 +27,7 @@ HOLDERS = ["Jane Doe", "Jane Doe <jane@example.com>", "Müller & Söhne GmbH", "
 PRIORS = ["empty", "code", "foreign-header", "binary-looking"]
 TARGETS = ["in-file", "force-dot-license", "fallback-dot-license", "binary", "uncommentable"]
 S3_STYLES = ["python", "c", "html", "cpp", "jinja", "lisp"]
-S3_TEMPLATES = [None, "full", "nocontrib", "nolicence", "nocopyright", "nothing", "hash.commented"]
+S3_TEMPLATES = [None, "full", "nocontrib", "nolicence", "nocopyright", "nothing", "hash.commented", "nolicence.commented", "nothing.commented"]
 
 
 def all_tokens():
@@ -309,7 +309,7 @@ def ev_S2(c) -> R:
 def ev_S3(c) -> R:
     r = R()
     tpl, target, st = c["tpl"], c["target"], c["style"]
-    if tpl == "hash.commented" and st != "python":
+    if tpl and tpl.endswith(".commented") and st != "python":
         r.outcome, r.nontrivial = "n/a", False
         return r
     root = fresh_dir("c07")
@@ -339,7 +339,7 @@ def ev_S3(c) -> R:
             r.violation(f"S3-file-itself-changed|{target}", f"target {target}: the file itself changed although a .license is used")
     r.evals = 2
     r.tags.append("S3")
-    if tpl in ("nolicence", "nocopyright", "nothing"):
+    if tpl in ("nolicence", "nocopyright", "nothing", "nolicence.commented", "nothing.commented"):
         r.tags.append("dropping-template")
     return r
 
